@@ -58,7 +58,14 @@ class Repartition(Expr):
         ):
             new_partitions = self.operand("new_partitions")
             if isinstance(new_partitions, Callable):
-                return new_partitions(self.frame.npartitions)
+                new_partitions = new_partitions(self.frame.npartitions)
+            if (
+                new_partitions > self.frame.npartitions
+                and self.frame.known_divisions
+            ):
+                # Interpolated divisions are de-duplicated, we can end up
+                # with fewer partitions than requested
+                return len(self.divisions) - 1
             return new_partitions
         return super().npartitions
 
